@@ -277,6 +277,12 @@ def comprehension(interp, e, env, kind):
     gens = e.generators
     if any(g.is_async for g in gens):
         raise Unsupported("async comprehension")
+    # a context may give a closed form to a comprehension shape it has a spec function for (e.g. the union over a list)
+    rule = getattr(interp.ctx, "comprehension_rule", None)
+    if rule is not None:
+        r = rule(interp, e, env, kind)
+        if r is not None:
+            return r
     # single generator with a filter over an unbounded symbolic collection, under a loop contract: the comprehension is
     # executed as the loop it abbreviates ( _comp = []; for tgt in it: if cond: _comp.append(elt) ) and cut at the invariant
     if kind == "list" and len(gens) == 1 and gens[0].ifs and not isinstance(e, ast.DictComp) and env.func is not None:
